@@ -137,8 +137,10 @@ func c15(r *mon.Run) {
 				if !sameOutcome(ow, ob) {
 					res := ref.RefSet(whole, doc, gen.Quirks{})
 					if len(res.Outcomes) > 1 || res.Skipped != "" || res.DontCare {
-						t.Count("law 1: more than one allowed order / unspecified: not compared")
-						continue
+						if agree(res, ow, ob) {
+							t.Count("law 1: sides differ only in an allowed member order / unspecified result")
+							continue
+						}
 					}
 					r.Violate(&mon.Violation{Workload: "pipe-composition", Index: i, API: "Search", Expr: gen.Spell(whole), Doc: doc,
 						Expected: "Search(B, Search(A, d)) = " + ob.String() + "   [A = " + gen.Spell(A) + " ; B = " + gen.Spell(B) + " ; Search(A, d) = " + oa.String() + "]",
@@ -191,8 +193,10 @@ func c15(r *mon.Run) {
 			if !sameOutcome(o1, o2) {
 				res := ref.RefSet(T1, doc, gen.Quirks{})
 				if len(res.Outcomes) > 1 || res.Skipped != "" || res.DontCare {
-					t.Count("law 2: more than one allowed order / unspecified: not compared")
-					return
+					if agree(res, o1, o2) {
+						t.Count("law 2: sides differ only in an allowed member order / unspecified result")
+						return
+					}
 				}
 				r.Violate(&mon.Violation{Workload: "referential-transparency", Index: i, API: "Search", Expr: gen.Spell(T1), Doc: doc,
 					Expected: "same as with the sub-expression " + gen.Spell(E) + " replaced by the literal of its value: " + gen.Spell(T2) + " = " + o2.String(),
